@@ -39,6 +39,12 @@ func main() {
 			os.Exit(3)
 		}
 		os.Exit(0) // do not wait for goroutines a stream may have abandoned
+	case "concworker":
+		if err := c09Worker(*seed, *tier, *out); err != nil {
+			fmt.Fprintln(os.Stderr, "concworker:", err)
+			os.Exit(3)
+		}
+		os.Exit(0)
 	case "sites":
 		if err := runSites(prop, *out); err != nil {
 			fmt.Fprintln(os.Stderr, "sites:", err)
